@@ -28,7 +28,157 @@ func cmpInt(a, b int) int {
 	return 0
 }
 
+// c01sweep: ALL histories of up to 5 calls that start with the call number `first` of a
+// 9-call alphabet (Add 0/1/2, Remove 0/1/2, Clear, Clone-and-continue-on-the-clone,
+// read-only walk) from a fresh tree: the first-use, empty-tree and tiny-tree corners,
+// exhaustively. After every call: Len, in-order slice, Contains(0..2) against the
+// model; at the end of every history the full three-traversal check, and every tree
+// that was cloned from must still hold what it held.
+func c01sweep(c *core.Ctx, first int) {
+	const nOps = 9
+	name := func(op int) string {
+		switch {
+		case op < 3:
+			return fmt.Sprintf("Add(%d)", op)
+		case op < 6:
+			return fmt.Sprintf("Remove(%d)", op-3)
+		case op == 6:
+			return "Clear()"
+		case op == 7:
+			return "Clone()+continue-on-clone"
+		}
+		return "walks"
+	}
+	histories := 0
+	for L := 1; L <= 5; L++ {
+		total := 1
+		for i := 1; i < L; i++ {
+			total *= nOps
+		}
+		for code := 0; code < total; code++ {
+			ops := []int{first}
+			for x, i := code, 1; i < L; i++ {
+				ops = append(ops, x%nOps)
+				x /= nOps
+			}
+			tr := avl.New(cmpInt)
+			t := &tr
+			var model []int
+			type frozen struct {
+				t     *avl.Tree[int]
+				model []int
+			}
+			var olds []frozen
+			var hist []string
+			fail := func(sig, msg string) {
+				c.Violate("sweep:"+sig, fmt.Sprintf("%s [exhaustive sweep, history %v from a fresh tree]", msg, hist), map[string]any{"history": hist})
+			}
+			for _, op := range ops {
+				hist = append(hist, name(op))
+				var p bool
+				var pv any
+				switch {
+				case op < 3:
+					p, pv = core.Catch(func() { t.Add(op) })
+					i := sort.SearchInts(model, op)
+					model = append(model[:i:i], append([]int{op}, model[i:]...)...)
+				case op < 6:
+					v := op - 3
+					i := sort.SearchInts(model, v)
+					want := i < len(model) && model[i] == v
+					var got bool
+					p, pv = core.Catch(func() { got = t.Remove(v) })
+					if !p && got != want {
+						fail("Remove:return", fmt.Sprintf("Remove(%d) returned %v, the multiset is %v", v, got, model))
+						return
+					}
+					if want {
+						model = append(model[:i:i], model[i+1:]...)
+					}
+				case op == 6:
+					p, pv = core.Catch(func() { t.Clear() })
+					model = nil
+				case op == 7:
+					var cl avl.Tree[int]
+					p, pv = core.Catch(func() { cl = t.Clone() })
+					olds = append(olds, frozen{t, append([]int(nil), model...)})
+					t = &cl
+				default:
+					var a, b, cc []int
+					p, pv = core.Catch(func() {
+						t.WalkInOrder(func(v int) { a = append(a, v) })
+						t.WalkPreOrder(func(v int) { b = append(b, v) })
+						t.WalkPostOrder(func(v int) { cc = append(cc, v) })
+					})
+					if !p && (!eqSlice(a, model) || !sameMultiset(b, model) || !sameMultiset(cc, model)) {
+						fail("walks", fmt.Sprintf("walks give in=%v pre=%v post=%v, the multiset is %v", a, b, cc, model))
+						return
+					}
+				}
+				if p {
+					fail("panic", fmt.Sprintf("%s panicked: %v", name(op), pv))
+					return
+				}
+				var in []int
+				var ln int
+				var has [3]bool
+				if p, pv := core.Catch(func() {
+					ln, in = t.Len(), t.SliceInOrder()
+					for v := 0; v < 3; v++ {
+						has[v] = t.Contains(v)
+					}
+				}); p {
+					fail("panic-in-observation", fmt.Sprintf("Len/SliceInOrder/Contains panicked: %v", pv))
+					return
+				}
+				if ln != len(model) || !eqSlice(in, model) {
+					fail("contents", fmt.Sprintf("Len()=%d SliceInOrder=%v, the multiset is %v", ln, in, model))
+					return
+				}
+				for v := 0; v < 3; v++ {
+					i := sort.SearchInts(model, v)
+					if has[v] != (i < len(model) && model[i] == v) {
+						fail("Contains", fmt.Sprintf("Contains(%d)=%v, the multiset is %v", v, has[v], model))
+						return
+					}
+				}
+			}
+			olds = append(olds, frozen{t, model})
+			for _, o := range olds {
+				var in, pre, post []int
+				if p, pv := core.Catch(func() { in, pre, post = o.t.SliceInOrder(), o.t.SlicePreOrder(), o.t.SlicePostOrder() }); p {
+					fail("panic-in-observation", fmt.Sprintf("Slice* panicked: %v", pv))
+					return
+				}
+				if !eqSlice(in, o.model) || o.t.Len() != len(o.model) {
+					fail("clone-independence", fmt.Sprintf("a tree that was cloned from (or the final tree) holds %v, expected %v", in, o.model))
+					return
+				}
+				if len(in) > 0 && !oneTreeDup(pre, in, post) {
+					fail("three-traversals", fmt.Sprintf("no binary tree has pre=%v in=%v post=%v", pre, in, post))
+					return
+				}
+				if s, want := o.t.String(), fmt.Sprint(o.model); s != want {
+					fail("String", fmt.Sprintf("String()=%q want %q", s, want))
+					return
+				}
+			}
+			histories++
+		}
+	}
+	c.Count("exhaustive_sweep_histories", int64(histories))
+	c.Count("exhaustive_sweeps_completed", 1)
+	c.NonTrivial(core.Mix(1, uint64(first), 0x5eeb))
+	if c.WantSample() {
+		c.Sample(map[string]any{"systematic": true, "first_call": name(first), "histories_enumerated": histories, "what": "all histories of length <= 5 over 9 calls from a fresh tree"})
+	}
+}
+
 func runC01(c *core.Ctx) {
+	if c.Index < 9 {
+		c01sweep(c, int(c.Index))
+		return
+	}
 	switch c.R.Intn(8) {
 	case 7: // comparators that return magnitudes, not just -1/0/+1 (a total order all the same)
 		n := c.R.Range(4, 40)
@@ -44,13 +194,17 @@ func runC01(c *core.Ctx) {
 		}
 	case 6: // big trees in extreme shapes: sparsest (Fibonacci) AVL shapes built without rotations, sorted runs, random
 		r := c.R
+		bigDen := 6 // trees beyond 1024 values: 1 in 6 of this family (thorough: 1 in 40, the case count is 500 times higher)
+		if c.Tier == "thorough" {
+			bigDen = 40
+		}
 		var pre []int
 		switch r.Intn(3) {
 		case 0:
 			pre = fibLevelOrder(r.Range(3, 11)) // 4..232 values, maximal height for the size
 		case 1:
 			n := r.Range(40, 400)
-			if r.Chance(1, 6) {
+			if r.Chance(1, bigDen) {
 				n = r.Range(1100, 2600) // beyond 1024 and 2048
 			}
 			for i := 0; i < n; i++ {
@@ -63,7 +217,7 @@ func runC01(c *core.Ctx) {
 			}
 		case 2:
 			n := r.Range(40, 400)
-			if r.Chance(1, 6) {
+			if r.Chance(1, bigDen) {
 				n = r.Range(1100, 2600)
 			}
 			for _, i := range r.Perm(n) {
